@@ -76,11 +76,7 @@ def roundtrip(ctx, tag, res):
             ctx.unexpected(o, "write_json:" + tag)
             return
         o = call(csep.load_evaluation_result, p)
-        if p.startswith(REUSED_DIR):
-            try:
-                os.remove(p)
-            except OSError:
-                pass
+        # (the reused file is left in place: the next result - longer or shorter - overwrites it)
     if not o.ok:
         ctx.unexpected(o, "load_evaluation_result:" + type(res).__name__)
         return
